@@ -805,46 +805,17 @@ func c14PClass(ch *desync.Chunk, err error) string {
 
 // the same over RemoteSSH with a fake ssh that runs `desync pull` locally
 func (s *c14Session) runSSH(a vh.Args, reqs []string) ([]string, error) {
-	bin := os.Getenv("VH_DESYNC")
-	if bin == "" {
+	if os.Getenv("VH_DESYNC") == "" {
 		return nil, nil
 	}
-	fake := filepath.Join(a.Work, "fake-ssh")
-	if _, err := os.Stat(fake); err != nil {
-		if err := os.WriteFile(fake, []byte("#!/bin/sh\n# fake ssh: ignore the host, run the remote command locally\nshift\nexec sh -c \"$1\"\n"), 0755); err != nil {
-			return nil, err
-		}
+	// in a child process under a watchdog: a request that never returns is the result "HANG"
+	ops := make([]c14SSHOp, len(reqs))
+	for i, q := range reqs {
+		id := s.ids[q]
+		ops[i] = c14SSHOp{"get", id.String()}
 	}
-	os.Setenv("CASYNC_SSH_PATH", fake)
-	os.Setenv("CASYNC_REMOTE_PATH", bin+" --digest sha256")
-	defer os.Unsetenv("CASYNC_SSH_PATH")
-	defer os.Unsetenv("CASYNC_REMOTE_PATH")
-	u, _ := url.Parse("ssh://localhost" + s.dir)
-	type res struct {
-		out []string
-		err error
-	}
-	rc := make(chan res, 1)
-	go func() {
-		st, err := desync.NewRemoteSSHStore(u, desync.StoreOptions{N: 1})
-		if err != nil {
-			rc <- res{nil, err}
-			return
-		}
-		var out []string
-		for _, q := range reqs {
-			ch, err := st.GetChunk(s.ids[q])
-			out = append(out, c14PClass(ch, err))
-		}
-		st.Close()
-		rc <- res{out, nil}
-	}()
-	select {
-	case x := <-rc:
-		return x.out, x.err
-	case <-time.After(20 * time.Second):
-		return nil, fmt.Errorf("RemoteSSH session hung on %v", reqs)
-	}
+	res, _, err := c14RunSSHChild(a, s.dir, 1, ops, 5*time.Second)
+	return res, err
 }
 
 func c14SessionOne(a vh.Args, o *vh.Oracle, r *vh.Result, s *c14Session, level string, reqs []string, failing string) error {
@@ -1285,6 +1256,12 @@ func runC14(a vh.Args, o *vh.Oracle, r *vh.Result) error {
 	if err := c14Overlap(a, o, r, rng.Fork()); err != nil {
 		return err
 	}
+	if err := c14SSHPool(a, o, r, rng.Fork()); err != nil {
+		return err
+	}
+	if err := c14CLIPut(a, o, r, rng.Fork()); err != nil {
+		return err
+	}
 	return c14Framing(a, o, r, rng.Fork())
 }
 
@@ -1295,6 +1272,10 @@ func c14Replay(a vh.Args, o *vh.Oracle, r *vh.Result, c *c14Case) error {
 		return c14PutRetries(a, o, r, rng)
 	case "overlap":
 		return c14Overlap(a, o, r, rng)
+	case "sshpool":
+		return c14SSHPool(a, o, r, rng)
+	case "cliput":
+		return c14CLIPut(a, o, r, rng)
 	case "script":
 		srv, err := c14NewScriptSrv()
 		if err != nil {
